@@ -45,6 +45,14 @@ func (r *bstRunner) Do(op []string) string {
 			if op[0] == "traversenested" && n == 2 {
 				r.t.Traverse(func(bstree.Item[int, int]) { inner++ })
 			}
+			if op[0] == "traversenested" && (n == 1 || n == 3) {
+				// ... and a complete Traverse of ANOTHER tree of the same type (trees share nothing)
+				other := bstree.New[int, int](func(a, b int) bool { return a < b })
+				for k := 0; k < 6; k++ {
+					other.Upsert(-500-k, -k)
+				}
+				other.Traverse(func(bstree.Item[int, int]) {})
+			}
 			items = append(items, "["+itoa(it.Key)+","+itoa(it.Val)+"]")
 		})
 		if op[0] == "traversenested" {
